@@ -834,4 +834,364 @@ theorem decMs_encMs : ∀ (ms : ML) (vs : VL), wfMs ms = true → wtMs ms vs = t
       simp [decMs, hd1 b2 hg, hd2]
 end
 
+/-! ### absent optional members; whole messages -/
+
+theorem optInner_empty (t : MT) (h : optInnerOk t = true) : decM t [] = .err .unexpectedEnd [] [] := by
+  cases t with
+  | int32 a b => cases a <;> cases b <;> simp_all [optInnerOk, decM, readIntR, readInt]
+  | string s => cases s <;> simp_all [optInnerOk, decM, readString]
+  | flags _ _ => simp [decM, readIntR, readInt]
+  | data => simp [decM, readInt]
+  | _ => simp [optInnerOk] at h
+
+/-- all members absent: nothing is written, and nothing decodes to exactly that -/
+theorem allNone_roundtrip : ∀ (ms : ML) (vs : VL), wfMs ms = true → wtMs ms vs = true → allNone vs = true →
+    encMs ms vs = .ok [] ∧ decMs ms [] = .ok vs [] []
+  | .nil, vs, _, hwt, _ => by
+    cases vs with
+    | nil => simp [encMs, decMs]
+    | cons _ _ => simp [wtMs] at hwt
+  | .cons t ms, vs, hwf, hwt, hn => by
+    cases vs with
+    | nil => simp [wtMs] at hwt
+    | cons v vs =>
+      simp only [wfMs, Bool.and_eq_true] at hwf
+      simp only [wtMs, Bool.and_eq_true] at hwt
+      cases v with
+      | none =>
+        simp only [allNone] at hn
+        obtain ⟨he, hd⟩ := allNone_roundtrip ms vs hwf.2 hwt.2 hn
+        cases t with
+        | optional t' =>
+          have hin : optInnerOk t' = true := by simpa [wfM] using hwf.1.1
+          simp [encMs, encM, he, Enc.seq, decMs, decM, optInner_empty t' hin, hd]
+        | _ => simp [wtM] at hwt
+      | _ => simp [allNone] at hn
+
+theorem noneThenSome_allFalse : ∀ (l : List Bool), (∀ b ∈ l, b = false) → noneThenSome l = false
+  | [], _ => rfl
+  | [_], _ => rfl
+  | a :: b :: rest, h => by
+    have hb : b = false := h b (by simp)
+    have := noneThenSome_allFalse (b :: rest) (fun x hx => h x (by simp [hx]))
+    subst hb
+    simp [noneThenSome, this]
+
+theorem optFlags_allNone : ∀ (ms : ML) (vs : VL), allNone vs = true → ∀ b ∈ optFlags ms vs, b = false
+  | .nil, vs, _, b, hb => by cases vs <;> simp [optFlags] at hb
+  | .cons t ms, .nil, _, b, hb => by cases t <;> simp [optFlags] at hb
+  | .cons t ms, .cons v vs, hn, b, hb => by
+    cases v with
+    | none =>
+      simp only [allNone] at hn
+      have ih := optFlags_allNone ms vs hn
+      cases t with
+      | optional t' =>
+        simp only [optFlags, List.mem_cons] at hb
+        rcases hb with hb | hb
+        · exact hb
+        · exact ih b hb
+      | _ => simp only [optFlags] at hb; exact ih b hb
+    | _ => simp [allNone] at hn
+
+theorem noneThenSome_true_cons (l : List Bool) : noneThenSome (true :: l) = noneThenSome l := by
+  cases l with
+  | nil => rfl
+  | cons b rest => simp [noneThenSome]
+
+theorem optGuard_absentOk : ∀ (ms : ML) (vs : VL), absentOk vs = true → noneThenSome (optFlags ms vs) = false
+  | .nil, vs, _ => by cases vs <;> simp [optFlags, noneThenSome]
+  | .cons t ms, .nil, _ => by cases t <;> simp [optFlags, noneThenSome]
+  | .cons t ms, .cons v vs, ha => by
+    by_cases hv : v = .none
+    · subst hv
+      simp only [absentOk] at ha
+      exact noneThenSome_allFalse _ (optFlags_allNone (.cons t ms) (.cons .none vs) (by simpa [allNone] using ha))
+    · have ha' : absentOk vs = true := by
+        cases v <;> simp_all [absentOk]
+      have ih := optGuard_absentOk ms vs ha'
+      cases t with
+      | optional t' =>
+        have : optFlags (.cons (.optional t') ms) (.cons v vs) = true :: optFlags ms vs := by
+          cases v <;> simp_all [optFlags]
+        rw [this, noneThenSome_true_cons]; exact ih
+      | _ => simp only [optFlags]; exact ih
+
+theorem decMs_encMs_absent : ∀ (ms : ML) (vs : VL), wfMs ms = true → wtMs ms vs = true → absentOk vs = true →
+    ∃ bs, encMs ms vs = .ok bs ∧ decMs ms bs = .ok vs [] []
+  | .nil, vs, _, hwt, _ => by
+    cases vs with
+    | nil => exact ⟨[], by simp [encMs], by simp [decMs]⟩
+    | cons _ _ => simp [wtMs] at hwt
+  | .cons t ms, vs, hwf, hwt, ha => by
+    cases vs with
+    | nil => simp [wtMs] at hwt
+    | cons v vs =>
+      by_cases hv : v = .none
+      · subst hv
+        have hn : allNone (.cons .none vs) = true := by simpa [absentOk, allNone] using ha
+        obtain ⟨he, hd⟩ := allNone_roundtrip (.cons t ms) (.cons .none vs) hwf hwt hn
+        exact ⟨[], he, hd⟩
+      · have hpa : presentV v = true ∧ absentOk vs = true := by
+          cases v <;> simp_all [absentOk]
+        have hwf0 := hwf
+        simp only [wfMs, Bool.and_eq_true, Bool.or_eq_true, Bool.not_eq_true'] at hwf
+        simp only [wtMs, Bool.and_eq_true] at hwt
+        obtain ⟨b1, he1, hd1⟩ := decM_encM t v hwf.1.1 hwt.1 hpa.1
+        obtain ⟨b2, he2, hd2⟩ := decMs_encMs_absent ms vs hwf.2 hwt.2 hpa.2
+        refine ⟨b1 ++ b2, by simp [encMs, he1, he2, Enc.seq], ?_⟩
+        have hg : greedy t = true → b2 = [] := by
+          intro hg
+          rcases hwf.1.2 with hnil | hng
+          · cases ms with
+            | nil =>
+              cases vs with
+              | nil => simp [encMs] at he2; exact he2
+              | cons _ _ => simp [wtMs] at hwt
+            | cons _ _ => simp [ML.isNil] at hnil
+          · rw [hg] at hng; simp at hng
+        simp [decMs, hd1 b2 hg, hd2]
+
+/-- `T::encode` followed by `T::decode` gives the value back, without warnings. -/
+theorem decodeMembers_encStruct (ms : ML) (vs : VL) (hwf : wfMs ms = true) (hwt : wtMs ms vs = true)
+    (ha : absentOk vs = true) : ∃ bs, encStruct ms vs = .ok bs ∧ decodeMembers ms bs = .ok vs [] := by
+  obtain ⟨bs, he, hd⟩ := decMs_encMs_absent ms vs hwf hwt ha
+  refine ⟨bs, ?_, ?_⟩
+  · simp [encStruct, optGuard, optGuard_absentOk ms vs ha, he, guardWrap]
+  · simp [decodeMembers, hd]
+
+/-! ### message ids -/
+
+theorem decodeId_encodeId (sys : Bool) (id : Ident) (h : idOk id = true) (rest : List UInt8) :
+    ∃ bs, encodeId sys id = .ok bs ∧ decodeId (bs ++ rest) = .ok (sys, id) rest [] := by
+  cases id with
+  | ordinal i =>
+    simp only [idOk, Bool.and_eq_true, decide_eq_true_eq] at h
+    have hi : inI32 i := by unfold inI32; omega
+    have hv : Tw.Packer.toI32 ((i.toNat * 2) % 2 ^ 32 + (if sys then 1 else 0)) = 2 * i + (if sys then 1 else 0) := by
+      unfold Tw.Packer.toI32
+      cases sys <;> simp <;> omega
+    have hi2 : inI32 (2 * i + (if sys then 1 else 0)) := by unfold inI32; cases sys <;> simp <;> omega
+    have h0 : ¬ i = 0 := by omega
+    have h1 : ¬ i < 0 := by omega
+    refine ⟨_, by simp only [encodeId, hi, not_true_eq_false, if_false, h0, h1, hv]; rfl, ?_⟩
+    simp only [decodeId, readInt_writeInt _ hi2 rest]
+    have hm : (2 * i + (if sys then 1 else 0)) / 2 = i := by cases sys <;> simp <;> omega
+    have hs : ((2 * i + (if sys then 1 else 0)) % 2 != 0) = sys := by
+      cases sys <;> simp <;> omega
+    cases sys <;> simp_all
+  | uuid u =>
+    simp only [idOk, decide_eq_true_eq] at h
+    refine ⟨_, by simp only [encodeId, h, if_true]; rfl, ?_⟩
+    have hi : inI32 (if sys then 1 else 0) := by cases sys <;> decide
+    simp only [decodeId, List.append_assoc, readInt_writeInt _ hi (u ++ rest)]
+    cases sys <;> simp [h]
+
+
+/-- `System::encode` / `Game::encode` followed by `msg::decode` -/
+theorem decodeMsg_encodeMsg (p : ProtoSpec) (sys : Bool) (s : Spec) (v : VL)
+    (hfind : findSpec s.id (if sys then p.system else p.game) = some s) (hid : idOk s.id = true)
+    (hwf : wfMs s.members = true) (hwt : wtMs s.members v = true) (ha : absentOk v = true) :
+    ∃ bs, encodeMsg sys s v = .ok bs ∧ decodeMsg p bs = .ok sys s v [] := by
+  obtain ⟨b, he, hd⟩ := decodeMembers_encStruct s.members v hwf hwt ha
+  obtain ⟨ib, hie, hid'⟩ := decodeId_encodeId sys s.id hid b
+  refine ⟨ib ++ b, by simp [encodeMsg, he, hie, Enc.seq], ?_⟩
+  simp [decodeMsg, hid', hfind, hd]
+
+/-- `Connless::encode` followed by `Connless::decode` -/
+theorem decodeConnless_encodeConnless (p : ProtoSpec) (s : ConnlessSpec) (v : VL)
+    (hfind : findConnless s.id p.connless = some s) (hid : s.id.length = 8)
+    (hwf : wfMs s.members = true) (hwt : wtMs s.members v = true) (ha : absentOk v = true) :
+    ∃ bs, encodeConnless s v = .ok bs ∧ decodeConnless p bs = .ok s v [] := by
+  obtain ⟨b, he, hd⟩ := decodeMembers_encStruct s.members v hwf hwt ha
+  refine ⟨s.id ++ b, by simp [encodeConnless, he, Enc.seq], ?_⟩
+  simp [decodeConnless, hid, hfind, hd]
+
+/-! ### violations of a described constraint are rejected -/
+
+theorem range_violation_rejected (min max : Option Int) (x : Int) (hi : inI32 x) (h : checkRange min max x = false)
+    (rest : List UInt8) : decM (.int32 min max) (writeInt x ++ rest) = .err .intOutOfRange rest [] := by
+  simp [decM, readIntR, readInt_writeInt x hi rest, h]
+
+theorem enum_violation_rejected (name : String) (lo : Int) (n : Nat) (x : Int) (hi : inI32 x) (h : inEnum lo n x = false)
+    (rest : List UInt8) : decM (.enum name lo n) (writeInt x ++ rest) = .err .intOutOfRange rest [] := by
+  simp [decM, readIntR, readInt_writeInt x hi rest, h]
+
+theorem bool_violation_rejected (x : Int) (hi : inI32 x) (h : x ≠ 0 ∧ x ≠ 1)
+    (rest : List UInt8) : decM .boolean (writeInt x ++ rest) = .err .intOutOfRange rest [] := by
+  have : checkRange (some 0) (some 1) x = false := by
+    simp only [checkRange, Bool.and_eq_false_iff, decide_eq_false_iff_not]; omega
+  simp [decM, readIntR, readInt_writeInt x hi rest, this]
+
+theorem control_character_rejected (s : List UInt8) (hn : hasNul s = false) (hc : hasControl s = true)
+    (rest : List UInt8) : decM (.string true) (s ++ 0 :: rest) = .err .controlCharacters rest [] := by
+  simp [decM, readString_append s hn rest, hc]
+
+theorem readString_unterminated : ∀ (s : List UInt8), hasNul s = false → readString s = none
+  | [], _ => rfl
+  | b :: s, h => by
+    simp only [hasNul, List.any_cons, Bool.or_eq_false_iff] at h
+    have hb : b ≠ 0 := by intro hb; subst hb; simp at h
+    have := readString_unterminated s (by simpa [hasNul] using h.2)
+    simp [readString, hb, this]
+
+theorem unterminated_string_rejected (strict : Bool) (s : List UInt8) (hn : hasNul s = false) :
+    decM (.string strict) s = .err .unexpectedEnd [] [] := by
+  simp [decM, readString_unterminated s hn]
+
+/-- an error of a (non-optional) member is the error of the whole message -/
+theorem member_error_rejects (t : MT) (ms : ML) (inp : List UInt8) (e : Err) (r : List UInt8) (ws : List Warning)
+    (h : decM t inp = .err e r ws) : decodeMembers (.cons t ms) inp = .err e ws := by
+  simp [decodeMembers, decMs, h]
+
+/-! ### snapshot objects: whatever decodes is well-typed -/
+
+theorem readIntO_ok {inp : List Int} {k : Int → Option Val} {x : Val} {r : List Int}
+    (hi : ∀ y ∈ inp, inI32 y) (h : readIntO inp k = .ok x r) :
+    ∃ v, inI32 v ∧ k v = some x ∧ inp = v :: r := by
+  unfold readIntO at h
+  split at h
+  · simp at h
+  · rename_i v rest
+    split at h
+    · rename_i x' hk
+      simp at h
+      exact ⟨v, hi v (by simp), by rw [hk, h.1], by rw [h.2]⟩
+    · simp at h
+
+theorem orep_ok (f : List Int → ORes Val) (p : Val → Bool)
+    (h : ∀ inp v r, (∀ y ∈ inp, inI32 y) → f inp = .ok v r → p v = true ∧ (∀ y ∈ r, inI32 y)) :
+    ∀ (n : Nat) (inp : List Int) (vs : VL) (r : List Int), (∀ y ∈ inp, inI32 y) →
+      orep f n inp = .ok vs r → vs.length = n ∧ VL.all p vs = true ∧ (∀ y ∈ r, inI32 y) := by
+  intro n
+  induction n with
+  | zero => intro inp vs r hi he; simp [orep] at he; simp [← he.1, ← he.2, VL.length, VL.all]; exact hi
+  | succ n ih =>
+    intro inp vs r hi he
+    simp only [orep] at he
+    split at he
+    · simp at he
+    · rename_i v r1 h1
+      split at he
+      · simp at he
+      · rename_i vs' r2 h2
+        simp at he
+        obtain ⟨hp, hr1⟩ := h _ _ _ hi h1
+        obtain ⟨hl, ha, hr2⟩ := ih _ _ _ hr1 h2
+        rw [← he.1, ← he.2]
+        simp [VL.length, VL.all, hl, ha, hp]
+        exact hr2
+
+mutual
+theorem decO_wt : ∀ (t : MT) (inp : List Int) (v : Val) (r : List Int), (∀ y ∈ inp, inI32 y) →
+    decO t inp = .ok v r → wtM t v = true ∧ (∀ y ∈ r, inI32 y)
+  | .int32 min max, inp, v, r, hi, h => by
+    simp only [decO] at h
+    obtain ⟨x, hx, hk, hinp⟩ := readIntO_ok hi h
+    refine ⟨?_, fun y hy => hi y (by rw [hinp]; simp [hy])⟩
+    split at hk
+    · rename_i hc; simp at hk; subst hk; simp [wtM, hx, hc]
+    · simp at hk
+  | .boolean, inp, v, r, hi, h => by
+    simp only [decO] at h
+    obtain ⟨x, hx, hk, hinp⟩ := readIntO_ok hi h
+    refine ⟨?_, fun y hy => hi y (by rw [hinp]; simp [hy])⟩
+    split at hk
+    · simp at hk; subst hk; simp [wtM]
+    · simp at hk
+  | .enum _ lo n, inp, v, r, hi, h => by
+    simp only [decO] at h
+    obtain ⟨x, hx, hk, hinp⟩ := readIntO_ok hi h
+    refine ⟨?_, fun y hy => hi y (by rw [hinp]; simp [hy])⟩
+    split at hk
+    · rename_i hc; simp at hk; subst hk; simp [wtM, hx, hc]
+    · simp at hk
+  | .flags _ _, inp, v, r, hi, h => by
+    simp only [decO] at h
+    obtain ⟨x, hx, hk, hinp⟩ := readIntO_ok hi h
+    refine ⟨?_, fun y hy => hi y (by rw [hinp]; simp [hy])⟩
+    simp at hk; subst hk; simp [wtM, hx]
+  | .tick, inp, v, r, hi, h => by
+    simp only [decO] at h
+    obtain ⟨x, hx, hk, hinp⟩ := readIntO_ok hi h
+    refine ⟨?_, fun y hy => hi y (by rw [hinp]; simp [hy])⟩
+    simp at hk; subst hk; simp [wtM, hx]
+  | .twString n, inp, v, r, hi, h => by
+    simp only [decO] at h
+    split at h
+    · rename_i vs r' hr
+      simp at h
+      rw [← h.1, ← h.2]
+      have := orep_ok _ isI32 (fun inp v r hi' hh => by
+        obtain ⟨x, hx, hk, hinp⟩ := readIntO_ok hi' hh
+        simp at hk; subst hk
+        exact ⟨by simp [isI32, hx], fun y hy => hi' y (by rw [hinp]; simp [hy])⟩) _ _ _ _ hi hr
+      exact ⟨by simp [wtM, this.1, this.2.1], this.2.2⟩
+    · simp at h
+  | .array n t, inp, v, r, hi, h => by
+    simp only [decO] at h
+    split at h
+    · rename_i vs r' hr
+      simp at h
+      rw [← h.1, ← h.2]
+      have := orep_ok _ (wtM t) (fun inp v r hi' hh => decO_wt t inp v r hi' hh) _ _ _ _ hi hr
+      exact ⟨by simp [wtM, this.1, this.2.1], this.2.2⟩
+    · simp at h
+  | .object ms, inp, v, r, hi, h => by
+    simp only [decO] at h
+    split at h
+    · rename_i vs r' hr
+      simp at h
+      rw [← h.1, ← h.2]
+      have := decOs_wt' ms inp vs r' hi hr
+      exact ⟨by simp only [wtM]; exact this.1, this.2⟩
+    · simp at h
+  | .tuneParam, inp, v, r, hi, h => by simp [decO] at h
+  | .string _, inp, v, r, hi, h => by simp [decO] at h
+  | .int32String, inp, v, r, hi, h => by simp [decO] at h
+  | .data, inp, v, r, hi, h => by simp [decO] at h
+  | .rest, inp, v, r, hi, h => by simp [decO] at h
+  | .raw _, inp, v, r, hi, h => by simp [decO] at h
+  | .beUint16, inp, v, r, hi, h => by simp [decO] at h
+  | .uint8, inp, v, r, hi, h => by simp [decO] at h
+  | .packedAddresses, inp, v, r, hi, h => by simp [decO] at h
+  | .serverinfoClient, inp, v, r, hi, h => by simp [decO] at h
+  | .optional _, inp, v, r, hi, h => by simp [decO] at h
+theorem decOs_wt' : ∀ (ms : ML) (inp : List Int) (vs : VL) (r : List Int), (∀ y ∈ inp, inI32 y) →
+    decOs ms inp = .ok vs r → wtMs ms vs = true ∧ (∀ y ∈ r, inI32 y)
+  | .nil, inp, vs, r, hi, h => by simp [decOs] at h; simp [← h.1, ← h.2, wtMs]; exact hi
+  | .cons t ms, inp, vs, r, hi, h => by
+    simp only [decOs] at h
+    split at h
+    · simp at h
+    · rename_i v r1 h1
+      split at h
+      · simp at h
+      · rename_i vs' r2 h2
+        simp at h
+        obtain ⟨hw1, hr1⟩ := decO_wt t _ _ _ hi h1
+        obtain ⟨hw2, hr2⟩ := decOs_wt' ms _ _ _ hr1 h2
+        rw [← h.1, ← h.2]
+        exact ⟨by simp [wtMs, hw1, hw2], hr2⟩
+end
+
+theorem decOs_wt (ms : ML) (inp : List Int) (vs : VL) (r : List Int) (hi : ∀ y ∈ inp, inI32 y)
+    (h : decOs ms inp = .ok vs r) : wtMs ms vs = true := (decOs_wt' ms inp vs r hi h).1
+
+
+theorem decodeId_noPanic (inp : List UInt8) (s : String) : decodeId inp ≠ .panic s := by
+  unfold decodeId
+  split
+  · simp
+  · dsimp only
+    split
+    · simp
+    · split
+      · simp
+      · split
+        · rename_i h1 h2
+          simp at h1 h2
+          omega
+        · simp
+
 end Tw.Gamenet
